@@ -178,17 +178,35 @@ theorem LevelOK.graphOK {lv : Level} (h : LevelOK lv) : GraphOK lv.graph where
   sym := h.sym
   self := fun i _ => diagOf_eq _ i
 
+/-- pruning the stored zeros of a row changes no entry -/
+theorem rowEntry_filter_ne_zero (row : List (Nat × Rat)) (v : Nat) :
+    rowEntry (row.filter (·.2 != 0)) v = rowEntry row v := by
+  induction row with
+  | nil => rfl
+  | cons e r ih =>
+    have hc : rowEntry (e :: r) v = (if e.1 = v then e.2 else 0) + rowEntry r v := by simp [rowEntry]
+    by_cases h : e.2 = 0
+    · have hf : (e :: r).filter (·.2 != 0) = r.filter (·.2 != 0) := by simp [h]
+      rw [hf, ih, hc, h]; simp
+    · have hf : (e :: r).filter (·.2 != 0) = e :: r.filter (·.2 != 0) := by simp [h]
+      have hc' : rowEntry (e :: r.filter (·.2 != 0)) v = (if e.1 = v then e.2 else 0) + rowEntry (r.filter (·.2 != 0)) v := by
+        simp [rowEntry]
+      rw [hf, hc', ih, hc]
+
+/-- the row of the aggregate: the merged row with its zero sums pruned -/
+theorem aggregate_row (labels : List Nat) (lv : Level) (a : Nat) (ha : a < nLabels labels) :
+    (aggregate labels lv).graph.row a = (aggRow labels lv.rows a).filter (·.2 != 0) := by
+  show (tab (nLabels labels) fun a => (aggRow labels lv.rows a).filter (·.2 != 0)).getD a [] = _
+  rw [tab_getD, if_pos ha]
+
 /-- entry `(a, b)` of the aggregate adjacency is the block sum -/
 theorem aggregate_entry (labels : List Nat) (lv : Level) (hlv : LevelOK lv) (a b : Nat)
     (ha : a < nLabels labels) :
     adj (aggregate labels lv).graph a b
       = ∑ u ∈ range lv.n, ∑ v ∈ range lv.n,
           if labOf labels u = a ∧ labOf labels v = b then adj lv.graph u v else 0 := by
-  have hrow : (aggregate labels lv).graph.row a = aggRow labels lv.rows a := by
-    show (tab (nLabels labels) (aggRow labels lv.rows)).getD a [] = _
-    rw [tab_getD, if_pos ha]
   unfold adj
-  rw [hrow]
+  rw [aggregate_row labels lv a ha, rowEntry_filter_ne_zero]
   unfold aggRow
   rw [(aggOuter (labOf labels) lv.rows a (List.range lv.rows.length) [] b).1, hlv.lenR, list_sum_range]
   simp only [rowEntry, List.map_nil, List.sum_nil, zero_add]
@@ -205,11 +223,9 @@ theorem aggregate_entry (labels : List Nat) (lv : Level) (hlv : LevelOK lv) (a b
 theorem aggregate_cols (labels : List Nat) (lv : Level) (hlv : LevelOK lv) (hlen : labels.length = lv.n)
     (a : Nat) (ha : a < nLabels labels) :
     ∀ e ∈ (aggregate labels lv).graph.row a, e.1 < nLabels labels := by
-  have hrow : (aggregate labels lv).graph.row a = aggRow labels lv.rows a := by
-    show (tab (nLabels labels) (aggRow labels lv.rows)).getD a [] = _
-    rw [tab_getD, if_pos ha]
-  rw [hrow]
+  rw [aggregate_row labels lv a ha]
   intro e' he'
+  replace he' := (List.mem_filter.mp he').1
   unfold aggRow at he'
   rcases (aggOuter (labOf labels) lv.rows a (List.range lv.rows.length) [] 0).2 e' he' with
     ⟨e'', he'', -⟩ | ⟨i, hi, -, e, he, h⟩
@@ -222,11 +238,9 @@ theorem aggregate_cols (labels : List Nat) (lv : Level) (hlv : LevelOK lv) (hlen
 theorem aggregate_pattern (labels : List Nat) (lv : Level) (hlv : LevelOK lv) (a : Nat) (ha : a < nLabels labels) :
     ∀ e' ∈ (aggregate labels lv).graph.row a,
       ∃ i, i < lv.n ∧ labOf labels i = a ∧ ∃ e ∈ lv.graph.row i, labOf labels e.1 = e'.1 := by
-  have hrow : (aggregate labels lv).graph.row a = aggRow labels lv.rows a := by
-    show (tab (nLabels labels) (aggRow labels lv.rows)).getD a [] = _
-    rw [tab_getD, if_pos ha]
-  rw [hrow]
+  rw [aggregate_row labels lv a ha]
   intro e' he'
+  replace he' := (List.mem_filter.mp he').1
   unfold aggRow at he'
   rcases (aggOuter (labOf labels) lv.rows a (List.range lv.rows.length) [] 0).2 e' he' with
     ⟨e'', he'', -⟩ | ⟨i, hi, hia, e, he, h⟩
